@@ -1,28 +1,39 @@
-"""C07 -- table rows addressed by name resolve against the current index column."""
+"""C07 -- table rows addressed by name resolve against the current index column.
+
+Formulated on symbolic terms (xsa.sym) of the normalised Table methods: a *write site* is a store event whose
+target term is (part of) `self._data[K]`, whatever local aliases or helper methods the code goes through; an
+invalidation is judged by the conditions under which it executes relative to the write.
+"""
 from __future__ import annotations
 
 import ast
-from typing import List, Optional
+from typing import List
 
 from .. import astutil as A
+from .. import sym as S
 from ..core import AnalysisError, Collector
-from .common import FnCtx, fnctx, has_guard, is_method_call, is_self_call
+from .common import SCtx, sctx
 
 PROP = "C07"
-FLOORS = {"C07.R1": 8, "C07.R2": 2, "C07.R3": 4, "C07.R4": 6, "C07.R5": 5}
+FLOORS = {"C07.R1": 8, "C07.R2": 1, "C07.R3": 7, "C07.R4": 6, "C07.R5": 4}
 META = {
     "explanation": "The (name, occurrence) -> position lookup is a lazily filled cache. Its inputs are the fields its fill function reads "
-                   "(the index column data, `_index`, `_sep_count`). Writer inventory over every method of Table: each statement that can "
-                   "store into the index column (directly, through an alias of self._data[K], by rebinding self._data[K], or through the "
-                   "generic object.__setattr__ of __setitem__) must be followed on every path by an invalidation that executes whenever the "
-                   "column written is the index column, or be preceded by one with no cache fill in between. Plus: get/set resolve rows by "
-                   "the same computation; the name::count<<offset parser's sign roles; negative counts shifted by the occurrence count; "
-                   "absent -> None -> KeyError; all entry points end in the same resolver; shape of the cache fill.",
+                   "(the index column data, `_index`, `_sep_count`). Writer inventory over every method of Table (symbolic store events, "
+                   "aliases and helpers dissolved): each write that can hit the index column (cell/slice store, column rebinding, the "
+                   "generic object.__setattr__ of __setitem__) must be followed on every path by an invalidation that executes whenever "
+                   "the column written is the index column, or be preceded by one with no cache fill in between; an invalidation "
+                   "conditioned on anything else (e.g. on a comparison of old and new values) does not count. Plus: get/set resolve "
+                   "rows by the same computation; the name::count<<offset parser's sign roles; negative counts shifted by the "
+                   "occurrence count (and nothing else); absent -> None -> KeyError; all entry points end in the same resolver; the "
+                   "cache is only read through that resolver; shape of the cache fill.",
     "decides": "coherence of the name cache under every API write (invalidate-on-write), agreement of the resolvers",
     "not_decided": "that the cache numbers occurrences correctly for all data (loop invariant over data) beyond the constants checked",
     "assumptions": ["numpy column arrays are mutated only through the Table API (excluded: writes to t._data[...] arrays from outside)"],
 }
 
+CACHE_API = {"_invalidate_cache", "_get_cache", "_get_row_cache", "_get_row_cache_raise", "_get_row_index", "_get_row_indices",
+             "_get_regexp_indices", "_make_cache", "_make_view", "_split_name_count_offset", "_select", "_select_rows", "_select_cols",
+             "_copy", "_get_row_where_col", "_concatenate_table", "_update", "_append_row", "_get_col_regexp_indices"}
 CACHE_FILLERS = {"_get_cache", "_get_row_cache", "_get_row_cache_raise", "_get_row_index", "_get_row_indices", "_get_regexp_indices", "_make_view"}
 EXEMPT_METHODS = {
     "__init__": "constructs the table; sets the cache fields to None (checked)",
@@ -30,59 +41,84 @@ EXEMPT_METHODS = {
     "__delitem__": "column removal: no index column left to resolve against if it is the index",
     "pop": "column removal",
 }
+DATA = S.sattr("_data")
+INDEX = S.sattr("_index")
+OBJ_SETATTR = ("attr", ("glob", "object"), "__setattr__")
 
 
-def _inval_nodes(cx: FnCtx) -> List[int]:
-    out = cx.call_nodes(lambda c: is_self_call(c, "_invalidate_cache"))
-    out += cx.call_nodes(lambda c: A.call_name(c) == "object.__setattr__" and len(c.args) == 3 and A.dotted(c.args[0]) == "self"
-                         and A.const(c.args[1]) == "_index_cache" and A.is_none(c.args[2]))
+def tctx(repo, name: str, cls: str = "Table") -> SCtx:
+    return sctx(repo, cls, name, keep=CACHE_API)
+
+
+def _private_helper(name: str) -> bool:
+    """a private method that is not part of the cache API: inlined into its callers and judged there"""
+    return name.startswith("_") and not name.startswith("__") and name not in CACHE_API
+
+
+def _invalidations(sx: SCtx) -> List[int]:
+    out = [ev.nid for ev, m in sx.calls_some(S.mcall(S.SELF, "_invalidate_cache"))]
+    out += [ev.nid for ev, m in sx.calls_some(("call", OBJ_SETATTR, (S.SELF, ("const", repr("_index_cache")), ("const", "None")), ()))]
     return sorted(set(out))
 
 
-def _fill_nodes(cx: FnCtx) -> List[int]:
-    return cx.call_nodes(lambda c: is_self_call(c) and c.func.attr in CACHE_FILLERS)
+def _fills(sx: SCtx) -> List[int]:
+    return sorted({ev.nid for ev, m in sx.calls_some(("call", ("attr", S.SELF, S.V("m", lambda t: t in CACHE_FILLERS)), S.ANY, S.ANY))})
 
 
-def _write_sites(cx: FnCtx):
-    """[(nid, key expr or None, description)] for stores that may hit the index column / cache inputs of `self`"""
-    fn = cx.fn
-    # aliases of self._data[K]
-    alias = {}
-    for n in A.walk(fn):
-        if isinstance(n, ast.Assign) and len(n.targets) == 1 and isinstance(n.targets[0], ast.Name):
-            v = n.value
-            if isinstance(v, ast.Subscript) and A.dotted(v.value) == "self._data":
-                alias[n.targets[0].id] = v.slice
+def write_sites(sx: SCtx):
+    """[(nid, key term or None, kind, description)] for stores that may hit the index column / cache inputs of `self`"""
     out = []
-    for nid, node in cx.cfg.nodes.items():
-        if node.kind != "stmt":
-            continue
-        st = node.ast
-        targets = []
-        if isinstance(st, ast.Assign):
-            targets = st.targets
-        elif isinstance(st, ast.AugAssign):
-            targets = [st.target]
-        for t in targets:
-            if isinstance(t, ast.Subscript):
-                base = t.value
-                if A.dotted(base) == "self._data":
-                    out.append((nid, t.slice, f"rebinds self._data[{A.src(t.slice)}]"))
-                elif isinstance(base, ast.Subscript) and A.dotted(base.value) == "self._data":
-                    out.append((nid, base.slice, f"stores into self._data[{A.src(base.slice)}][...]"))
-                elif isinstance(base, ast.Name) and base.id in alias:
-                    # the alias may have been assigned from the key's own name (col = self._data[col]): report the key as seen at the alias site
-                    out.append((nid, alias[base.id], f"stores into `{base.id}` = self._data[{A.src(alias[base.id])}]"))
-        for c in cx.calls_at(nid):
-            if A.call_name(c) == "object.__setattr__" and len(c.args) == 3 and A.dotted(c.args[0]) == "self":
-                k = c.args[1]
-                if isinstance(k, ast.Constant):
-                    if k.value in ("_index", "_sep_count", "_data"):
-                        out.append((nid, None, f"object.__setattr__(self, {k.value!r}, ...)"))
-                else:
-                    out.append((nid, None, f"object.__setattr__(self, {A.src(k)}, ...) with a computed attribute name"))
-            if isinstance(c.func, ast.Attribute) and c.func.attr in ("update", "__setitem__", "setdefault") and A.dotted(c.func.value) == "self._data":
-                out.append((nid, None, f"self._data.{c.func.attr}(...)"))
+    for ev in sx.events:
+        if ev.kind == "store":
+            for t in S.alts(ev.target):
+                if t[:1] == ("sub",) and t[1] == DATA:
+                    out.append((ev.nid, t[2], "rebind", f"rebinds self._data[{S.show(t[2], False)}]", ev))
+                elif t[:1] == ("sub",) and t[1][:1] == ("sub",) and t[1][1] == DATA:
+                    out.append((ev.nid, t[1][2], "cell", f"stores into self._data[{S.show(t[1][2], False)}][...]", ev))
+                elif t == DATA:
+                    out.append((ev.nid, None, "attr", "rebinds self._data", ev))
+                elif t in (INDEX, S.sattr("_sep_count")):
+                    out.append((ev.nid, None, "attr", f"sets {S.show(t)}", ev))
+        elif ev.kind == "call":
+            for t in S.alts(ev.term):
+                if t[1] == OBJ_SETATTR and len(t[2]) == 3 and t[2][0] == S.SELF:
+                    k = t[2][1]
+                    if k[:1] == ("const",):
+                        if k[1].strip("'\"") in ("_index", "_sep_count", "_data"):
+                            out.append((ev.nid, None, "attr", f"object.__setattr__(self, {k[1]}, ...)", ev))
+                    else:
+                        out.append((ev.nid, k, "attrname", f"object.__setattr__(self, {S.show(k, False)}, ...) with a computed attribute name", ev))
+                if t[1][:1] == ("attr",) and t[1][1] == DATA and t[1][2] in ("update", "__setitem__", "setdefault"):
+                    out.append((ev.nid, None, "attr", f"self._data.{t[1][2]}(...)", ev))
+    return out
+
+
+def _key_is_index(c, key, kind) -> bool:
+    """condition c holds whenever the key written is the index column (resp. a cache-input attribute name)"""
+    parts = list(c[2]) if (c[:1] == ("bool",) and c[1] == "or") else [c]
+    if kind == "attrname":
+        names = set()
+        for p in parts:
+            if p[:1] == ("cmp",) and p[1] == "==":
+                for a, b in ((p[2], p[3]), (p[3], p[2])):
+                    if a == key and b[:1] == ("const",):
+                        names.add(b[1].strip("'\""))
+            if p[:1] == ("cmp",) and p[1] == "in" and p[2] == key and p[3][:1] in (("tuple",), ("list",), ("set",)):
+                names |= {x[1].strip("'\"") for x in p[3][1] if x[:1] == ("const",)}
+        return {"_index", "_sep_count"} <= names
+    if key is None:
+        return any(p[:1] == ("cmp",) and p[1] == "==" and INDEX in (p[2], p[3]) for p in parts)
+    return any(p[:1] == ("cmp",) and p[1] == "==" and {p[2], p[3]} == {key, INDEX} for p in parts)
+
+
+def _key_not_index_branches(sx: SCtx, key, kind) -> List[int]:
+    out = []
+    for n in sx.cfg.nodes.values():
+        if n.kind in ("T", "F") and n.ast is not None and not isinstance(n.ast, (ast.For, ast.AsyncFor)):
+            t = sx.sym.of(n.ast, n.of)
+            neg = S.norm_cond(n.kind != "T", t)      # what holds on the *other* branch
+            if any(_key_is_index(c, key, kind) for c in S.conjuncts(neg)) and len(S.conjuncts(neg)) == 1:
+                out.append(n.id)
     return out
 
 
@@ -92,56 +128,38 @@ def _invalidate_on_write(col, rule="C07.R1"):
     seen = set()
     n_sites = 0
     for name, fn in t.methods.items():
-        if id(fn) in seen:
+        if id(fn) in seen or name in t.properties:
             continue
         seen.add(id(fn))
-        cx = FnCtx(t.module, t, fn)
-        sites = _write_sites(cx)
+        if _private_helper(name):
+            continue     # judged where it is inlined
+        sx = tctx(repo, name)
+        sites = write_sites(sx)
         if not sites:
             continue
         if name in EXEMPT_METHODS:
-            col.ok(rule, f"Table.{name}#exempt", cx.loc(fn), f"writer exempt: {EXEMPT_METHODS[name]}", "")
+            col.ok(rule, f"Table.{name}#exempt", sx.loc(sx.fn), f"writer exempt: {EXEMPT_METHODS[name]}", "")
             continue
-        if name == "_update":
-            # identity write: data = self._data when the table exists, values come from iterating data.items()
-            ident = any(isinstance(n, ast.Assign) and A.target_names(n.targets[0]) == [A.params(fn)[1]] and A.dotted(n.value) == "self._data"
-                        for n in A.walk(fn))
-            loops = [n for n in A.walk(fn) if isinstance(n, ast.For) and A.src(n.iter) == f"{A.params(fn)[1]}.items()"]
-            okw = ident and len(loops) == 1
-            if okw:
-                nm, val = A.target_names(loops[0].target)
-                okw = all(isinstance(cx.cfg.nodes[nid].ast, ast.Assign) and A.dotted(cx.cfg.nodes[nid].ast.value) == val for nid, _, _ in sites)
-            col.add(rule, "Table._update#identity-write", okw, cx.loc(fn),
-                    "_update re-stores the table's own columns (values come from iterating self._data.items()): no data changes", "")
-            continue
-        inval = _inval_nodes(cx)
-        fills = _fill_nodes(cx)
-        cfg = cx.cfg
-        for nid, key, desc in sites:
+        cfg = sx.cfg
+        inval = _invalidations(sx)
+        fills = _fills(sx)
+        for nid, key, kind, desc, ev in sites:
             n_sites += 1
-            computed_attr = "computed attribute name" in desc
-            w_guards = {g.id for g in cfg.guards(nid)}
-
-            def key_test(g, at):
-                if computed_attr:
-                    return _is_attr_name_test(g)
-                return _is_index_key_test(g, key, cx, at)
-            # invalidations that fire whenever the key is the index column (guards beyond those of the write itself are key tests)
+            if kind == "rebind" and ev.value is not None and key is not None:
+                mk = S.match(key, ("key", S.V("d")))
+                if mk is not None and ev.value == ("val", mk["d"]) and DATA in S.alts(mk["d"]):
+                    col.ok(rule, f"Table.{name}#identity-write", sx.loc(nid),
+                           "re-stores the table's own columns (key and value come from iterating self._data.items()): no data changes", "")
+                    continue
+            wconds = set(sx.conds(nid))
             good = []
             for i in inval:
-                extra = [g for g in cfg.guards(i) if not isinstance(g.ast, ast.For) and g.id not in w_guards]
-                if all(key_test(g, i) for g in extra):
+                extra = [c for c in sx.conds(i) if c not in wconds]
+                if all(_key_is_index(c, key, kind) for c in extra):
                     good.append(i)
-            # branches on which the key is known not to be the index column
-            skips = []
-            for n in cfg.nodes.values():
-                if n.kind == "F":
-                    fake = type("G", (), {"kind": "T", "ast": n.ast, "id": n.id, "of": n.of})()
-                    if not isinstance(n.ast, ast.For) and key_test(fake, n.id):
-                        skips.append(n.id)
+            skips = _key_not_index_branches(sx, key, kind)
             after_ok = bool(good) and cfg.must_pass(nid, cfg.EXIT, good + skips) and any(cfg.path_avoiding(nid, i, []) for i in good)
-            before_ok = False
-            why = ""
+            before_ok, why = False, ""
             if not after_ok:
                 pre = [i for i in good if cfg.path_avoiding(i, nid, [])]
                 before_ok = bool(pre) and cfg.must_pass(cfg.ENTRY, nid, pre + skips)
@@ -149,282 +167,309 @@ def _invalidate_on_write(col, rule="C07.R1"):
                 if before_ok and refill:
                     before_ok = False
                     why = ("the cache is refilled between the invalidation and the write (the row is resolved by name first): "
-                           f"{[cx.loc(f) for f in refill][:3]}")
+                           f"{[sx.loc(f) for f in refill][:3]}")
                 elif not before_ok:
+                    cond_inval = [i for i in inval if i not in good]
                     why = "no invalidation that fires for the index column follows, or precedes, this write on every path" + \
-                          (f" (invalidations present: {[cx.loc(i) for i in inval]})" if inval else " (no invalidation in this method)")
-            col.add(rule, f"Table.{name}#write:{desc}", after_ok or before_ok, cx.loc(nid),
+                          (f" (invalidations conditioned on something else: {[(sx.loc(i), [S.show(c) for c in sx.conds(i)]) for i in cond_inval][:2]})"
+                           if cond_inval else (f" (invalidations present: {[sx.loc(i) for i in inval]})" if inval else " (no invalidation in this method)"))
+            col.add(rule, f"Table.{name}#write:{desc}", after_ok or before_ok, sx.loc(nid),
                     "a write that may hit the index column (or `_index`/`_sep_count`) is followed -- or preceded without an intervening "
                     "cache fill -- by an invalidation of the name cache that fires whenever the index column is the one written", why)
     col.count("table_write_sites", n_sites)
     # fresh tables start with an empty cache; invalidation resets it; fill is lazy on `is None`
-    cx = fnctx(repo, "Table", "__init__")
+    sx = tctx(repo, "__init__")
     okn = False
-    for n in A.walk(cx.fn):
-        if isinstance(n, ast.Dict):
-            d = {A.const(k): v for k, v in zip(n.keys, n.values)}
-            if "_index_cache" in d:
-                okn = A.is_none(d["_index_cache"])
-    col.add(rule, "Table.__init__#cache-starts-empty", okn, cx.loc(cx.fn), "a new table starts with no name cache", "")
+    for ev in sx.events:
+        for tm in ([ev.term] if ev.kind == "call" else [ev.value] if ev.value is not None else []):
+            for s_ in S.subterms(tm):
+                if s_[:1] == ("dict",):
+                    d = dict(s_[1])
+                    if ("const", repr("_index_cache")) in d:
+                        okn = d[("const", repr("_index_cache"))] == ("const", "None")
+                if s_[:1] == ("acc",) and s_[1] == "dict":
+                    for c in s_[2]:
+                        if c[0] == "kv" and c[2] == ("const", repr("_index_cache")):
+                            okn = c[3] == ("const", "None")
+    for ev, m in sx.calls_some(("call", OBJ_SETATTR, (S.SELF, ("const", repr("_index_cache")), S.V("v")), ())):
+        okn = m["v"] == ("const", "None")
+    col.add(rule, "Table.__init__#cache-starts-empty", okn, sx.loc(sx.fn), "a new table starts with no name cache", "")
     if repo.has_method("Table", "_invalidate_cache"):
-        cx = fnctx(repo, "Table", "_invalidate_cache")
-        i = _inval_nodes(cx)
-        col.add(rule, "Table._invalidate_cache#resets-index-cache", bool(i) and cx.cfg.must_pass(cx.cfg.ENTRY, cx.cfg.EXIT, i), cx.loc(cx.fn),
+        sx = sctx(repo, "Table", "_invalidate_cache")
+        i = [ev.nid for ev, m in sx.calls_some(("call", OBJ_SETATTR, (S.SELF, ("const", repr("_index_cache")), ("const", "None")), ()))]
+        col.add(rule, "Table._invalidate_cache#resets-index-cache", bool(i) and sx.cfg.must_pass(sx.cfg.ENTRY, sx.cfg.EXIT, i), sx.loc(sx.fn),
                 "invalidation sets _index_cache to None unconditionally", "")
-    cx = fnctx(repo, "Table", "_get_cache")
-    cfg = cx.cfg
-    mk = cx.call_nodes(lambda c: is_self_call(c, "_make_cache"))
-    def none_test(t):
-        p = A.compare_parts(t)
-        return bool(p and isinstance(p[1], ast.Is) and A.dotted(p[0]) == "self._index_cache" and A.is_none(p[2]))
-    okf = len(mk) == 1 and has_guard(cfg, mk[0], "T", none_test) and len(cfg.guards(mk[0])) == 1
-    sets = cx.call_nodes(lambda c: A.call_name(c) == "object.__setattr__" and A.const(c.args[1]) in ("_index_cache", "_count_cache"))
-    okf = okf and len(sets) >= 2 and all(has_guard(cfg, s, "T", none_test) for s in sets)
-    rets = [n.ast.value for n in cfg.nodes.values() if n.kind == "stmt" and isinstance(n.ast, ast.Return)]
-    okf = okf and len(rets) == 1 and A.src(rets[0]) == "(self._index_cache, self._count_cache)"
-    col.add(rule, "Table._get_cache#lazy-fill-when-None", okf, cx.loc(cx.fn),
+    sx = tctx(repo, "_get_cache")
+    cfg = sx.cfg
+    is_none = ("cmp", "is", S.sattr("_index_cache"), ("const", "None"))
+    mk = sx.calls_some(S.mcall(S.SELF, "_make_cache"))
+    okf = len(mk) == 1 and sx.conds(mk[0][0].nid) == (is_none,)
+    sets = sx.calls_some(("call", OBJ_SETATTR, (S.SELF, S.V("k", lambda x: x in (("const", repr("_index_cache")), ("const", repr("_count_cache")))), S.V("v")), ()))
+    fill = mk[0][0].term if mk else None
+    okf = okf and len(sets) >= 2 and all(is_none in sx.conds(ev.nid) for ev, m in sets)
+    if okf:
+        vals = {m["k"][1].strip("'\""): m["v"] for ev, m in sets}
+        okf = vals.get("_index_cache") == ("item", fill, 0) and vals.get("_count_cache") == ("item", fill, 1)
+    rets = sx.of_kind("return")
+    okf = okf and bool(rets) and all(r.value == ("tuple", (S.sattr("_index_cache"), S.sattr("_count_cache"))) for r in rets)
+    col.add(rule, "Table._get_cache#lazy-fill-when-None", okf, sx.loc(sx.fn),
             "the cache is (re)built from the current column exactly when _index_cache is None, and both dictionaries come from the same fill", "")
 
 
-def _is_attr_name_test(g) -> bool:
-    """taken branch covers attribute names `_index` and `_sep_count` (the cache inputs that are attributes)"""
-    if g.kind != "T":
-        return False
-    t = g.ast
-    alts = t.values if isinstance(t, ast.BoolOp) and isinstance(t.op, ast.Or) else [t]
-    names = set()
-    for a in alts:
-        p = A.compare_parts(a)
-        if p and isinstance(p[1], ast.Eq):
-            for side in (p[0], p[2]):
-                if isinstance(side, ast.Constant) and isinstance(side.value, str):
-                    names.add(side.value)
-        if p and isinstance(p[1], ast.In) and isinstance(p[2], (ast.Tuple, ast.List, ast.Set)):
-            names |= {A.const(e) for e in p[2].elts}
-    return {"_index", "_sep_count"} <= names
-
-
-def _is_index_key_test(g, key, cx: FnCtx, at: int) -> bool:
-    """guard `g` (taken branch) holds whenever the written key equals self._index (or a cache-input attribute name)"""
-    t = g.ast
-    if g.kind != "T":
-        return False
-    alts = t.values if isinstance(t, ast.BoolOp) and isinstance(t.op, ast.Or) else [t]
-    for a in alts:
-        p = A.compare_parts(a)
-        if p and isinstance(p[1], ast.Eq):
-            l, _, r = p
-            sides = {A.src(l), A.src(r)}
-            if "self._index" in sides:
-                other = (sides - {"self._index"})
-                if not other:
-                    continue
-                o = next(iter(other))
-                if key is None:
-                    return True
-                ks = A.src(key)
-                if o == ks:
-                    return True
-                # the key name may have been saved before being shadowed: colname = col ; col = self._data[col]
-                if isinstance(key, ast.Name):
-                    for n in A.walk(cx.fn):
-                        if isinstance(n, ast.Assign) and A.target_names(n.targets[0]) == [o] and A.dotted(n.value) == ks:
-                            return True
-                        if isinstance(n, ast.Assign) and isinstance(n.targets[0], (ast.Tuple,)) and ks in A.target_names(n.targets[0]) and o == ks:
-                            return True
-    return False
+def _row_resolution(sx: SCtx, row_from):
+    """alternatives of the row index used to subscript the column in a cell access, with the row selector abstracted"""
+    out = set()
+    hits = []
+    for ev in sx.events:
+        tms = []
+        if ev.kind == "return" and ev.value is not None:
+            tms = [ev.value]
+        elif ev.kind == "store":
+            tms = [ev.target]
+        for tm in tms:
+            for a in S.alts(tm):
+                if a[:1] == ("sub",) and any(x[:1] == ("sub",) and x[1] == DATA for x in S.alts(a[1])):
+                    idx = a[2]
+                    insts = S.instances(idx, 64)
+                    if len(insts) >= 3:
+                        hits.append(ev)
+                        for i in insts:
+                            out.add(S.show(S.subst(i, {("item", row_from, 1): ("glob", "ROW"), ("sub", row_from, ("const", "1")): ("glob", "ROW")}), False))
+    return out, hits
 
 
 def _get_set_agreement(col, rule="C07.R2"):
     repo = col.repo
-    g = repo.method("Table", "__getitem__")
-    s = repo.method("Table", "__setitem__")
+    g = tctx(repo, "__getitem__")
+    s = tctx(repo, "__setitem__")
+    rg, hg = _row_resolution(g, g.P(0))
+    rs, hs = _row_resolution(s, s.P(0))
+    if not rg or not rs:
+        raise AnalysisError("Table.__getitem__/__setitem__: cell access `self._data[col][<resolved row>]` not recognised (cannot decide)")
+    col.add(rule, "Table.__getitem__~__setitem__#same-row-resolution", rg == rs, s.loc(hs[0]) if hs else s.loc(s.fn),
+            "reading and writing a cell resolve the row selector by the same computations",
+            "" if rg == rs else f"only when reading: {sorted(rg - rs)[:3]}; only when writing: {sorted(rs - rg)[:3]}")
+    named = [x for x in rg if "ROW" in x and "_get_row_indices" not in x and x != "ROW"]
+    through = all(("_get_row_cache_raise" in x) or (".get(" in x and "_get_cache()" in x) for x in named)
+    col.add(rule, "Table.__getitem__#resolution-steps", through and bool(named), g.loc(hg[0]) if hg else g.loc(g.fn),
+            "a named row is looked up in the cache and otherwise resolved by the raising resolver", f"{sorted(named)[:4]}")
 
-    def resolution(fn):
-        """the if/elif chain on the row selector"""
-        for n in A.walk(fn):
-            if isinstance(n, ast.If) and A.src(n.test) == "isinstance(row, str)":
-                return n
-        return None
-    rg, rs = resolution(g), resolution(s)
-    if rg is None or rs is None:
-        helper = [c for c in A.calls(g) if is_self_call(c) and c.func.attr.startswith("_") and "row" in c.func.attr]
-        helper_s = [c for c in A.calls(s) if is_self_call(c) and c.func.attr.startswith("_") and "row" in c.func.attr]
-        same = bool(helper) and bool(helper_s) and {c.func.attr for c in helper} & {c.func.attr for c in helper_s}
-        if not same:
-            raise AnalysisError("Table.__getitem__/__setitem__: row resolution chain not recognised (cannot decide)")
-        col.ok(rule, "Table.__getitem__~__setitem__#same-row-resolution", "xdeps/table.py", "both resolve rows through one helper", "")
-        return
-    col.add(rule, "Table.__getitem__~__setitem__#same-row-resolution", A.alpha(rg) == A.alpha(rs), repo.cls("Table").module.loc(rs),
-            "reading and writing a cell resolve the row selector by the same computation", "the two selector chains differ" if A.alpha(rg) != A.alpha(rs) else "")
-    # fast path: cache.get((row, 0)) then the parser, raising resolver
-    ok = not A.has_fragments(g, ["{L}.get(({L}, 0))", "self._split_name_count_offset({L})", "self._get_row_cache_raise({L}, {L}, {L})",
-                                 "self._get_row_cache_raise(*{L})", "{L}.get({L})"])
-    col.add(rule, "Table.__getitem__#resolution-steps", ok, repo.cls("Table").module.loc(rg),
-            "a string row is looked up as (row, 0) and otherwise parsed into name/count/offset and resolved by the raising resolver; "
-            "a tuple row is looked up directly and otherwise resolved by the raising resolver", "")
+
+def _int_of_split(t, name, sep, part=1):
+    """t == int(<name>.split(self.<sep>, 1)[part])"""
+    return S.is_call_of(t, ("glob", "int")) and len(t[2]) == 1 and t[2][0][:1] == ("item",) and t[2][0][2] == part and \
+        S.is_call_of(t[2][0][1], meth="split") and t[2][0][1][2][:1] == (S.sattr(sep),) and t[2][0][1][2][1:] in ((("const", "1"),), ())
 
 
 def _parser(col, rule="C07.R3"):
     repo = col.repo
-    cx = fnctx(repo, "Table", "_split_name_count_offset")
-    cfg = cx.cfg
-    augs = [n for n in cfg.nodes.values() if n.kind == "stmt" and isinstance(n.ast, ast.AugAssign) and A.dotted(n.ast.target) == "offset"]
-    roles = {}
-    for n in augs:
-        for g in cfg.guards(n.id):
-            if g.kind == "T":
-                s = A.src(g.ast)
-                if "_sep_previous" in s:
-                    roles["previous"] = type(n.ast.op).__name__
-                elif "_sep_next" in s:
-                    roles["next"] = type(n.ast.op).__name__
-    col.add(rule, "Table._split_name_count_offset#previous-decreases", roles.get("previous") == "Sub", cx.loc(cx.fn),
+    sx = tctx(repo, "_split_name_count_offset")
+    rets = sx.of_kind("return")
+    if not rets or any(not (r.value[:1] == ("tuple",) and len(r.value[1]) == 3) for r in rets):
+        raise AnalysisError("Table._split_name_count_offset: does not return a (name, count, offset) tuple (cannot decide)")
+    roles, seps_used = {}, set()
+    for r in rets:
+        name_t, count_t, off_t = r.value[1]
+        for a in S.instances(off_t, 64):
+            if a == ("const", "0"):
+                roles.setdefault("none", True)
+                continue
+            sign, x = None, None
+            if a[:1] in (("aug",), ("op",)) and a[1] in ("-", "+") and a[2] == ("const", "0"):
+                sign, x = a[1], a[3]
+            elif a[:1] == ("uop",) and a[1] == "-":
+                sign, x = "-", a[2]
+            elif S.is_call_of(a, ("glob", "int")):
+                sign, x = "+", a
+            if x is not None and S.is_call_of(x, ("glob", "int")) and x[2] and x[2][0][:1] == ("item",) and S.is_call_of(x[2][0][1], meth="split"):
+                sep = x[2][0][1][2][0] if x[2][0][1][2] else None
+                which = "previous" if sep == S.sattr("_sep_previous") else "next" if sep == S.sattr("_sep_next") else None
+                if which:
+                    roles[which] = sign
+                    seps_used.add(sep)
+                    continue
+            roles.setdefault("unrecognised", []).append(S.show(a)) if isinstance(roles.get("unrecognised", []), list) else None
+        for a in S.instances(count_t, 64):
+            if a == ("const", "None"):
+                continue
+            if S.is_call_of(a, ("glob", "int")) and a[2] and a[2][0][:1] == ("item",) and S.is_call_of(a[2][0][1], meth="split") \
+                    and a[2][0][1][2][:1] == (S.sattr("_sep_count"),) and a[2][0][2] == 1:
+                roles["count"] = True
+            else:
+                roles.setdefault("unrecognised", []).append(S.show(a))
+    col.add(rule, "Table._split_name_count_offset#previous-decreases", roles.get("previous") == "-", sx.loc(sx.fn),
             "`name<<k` (previous) subtracts k from the offset", str(roles))
-    col.add(rule, "Table._split_name_count_offset#next-increases", roles.get("next") == "Add", cx.loc(cx.fn),
+    col.add(rule, "Table._split_name_count_offset#next-increases", roles.get("next") == "+", sx.loc(sx.fn),
             "`name>>k` (next) adds k to the offset", str(roles))
-    splits = [c for c in A.calls(cx.fn) if isinstance(c.func, ast.Attribute) and c.func.attr == "split"]
-    seps = [A.src(c.args[0]) for c in splits if c.args]
-    ok = sorted(seps) == ["self._sep_count", "self._sep_next", "self._sep_previous"] and all(len(c.args) == 2 and A.is_const(c.args[1], 1) for c in splits)
-    col.add(rule, "Table._split_name_count_offset#separators", ok, cx.loc(cx.fn),
-            "the parser splits once on each of the table's three separators", str(seps))
-    rets = [n.ast.value for n in cfg.nodes.values() if n.kind == "stmt" and isinstance(n.ast, ast.Return)]
-    col.add(rule, "Table._split_name_count_offset#returns", len(rets) == 1 and isinstance(rets[0], ast.Tuple) and len(rets[0].elts) == 3, cx.loc(cx.fn),
-            "returns (name, count, offset)", "")
-    inits = {A.target_names(n.targets[0])[0]: n.value for n in A.walk(cx.fn) if isinstance(n, ast.Assign) and len(A.target_names(n.targets[0])) == 1}
-    # _get_row_cache
-    cx = fnctx(repo, "Table", "_get_row_cache")
-    cfg = cx.cfg
-    P = A.params(cx.fn)
-    row_p, cnt_p, off_p = P[1], P[2], P[3]
-    neg = [n for n in cfg.nodes.values() if n.kind == "stmt" and isinstance(n.ast, ast.AugAssign) and A.dotted(n.ast.target) == cnt_p]
-    okn = len(neg) == 1 and isinstance(neg[0].ast.op, ast.Add)
-    if okn:
-        v = neg[0].ast.value
-        def lt0(t):
-            p = A.compare_parts(t)
-            return bool(p and isinstance(p[1], ast.Lt) and A.dotted(p[0]) == cnt_p and A.is_const(p[2], 0))
-        okn = has_guard(cfg, neg[0].id, "T", lt0) and len(cfg.guards(neg[0].id)) == 1
-        src_ok = (isinstance(v, ast.Call) and isinstance(v.func, ast.Attribute) and v.func.attr == "get" and A.dotted(v.args[0]) == row_p
-                  and len(v.args) == 2 and A.is_const(v.args[1], 0)) or \
-            (isinstance(v, ast.Subscript) and A.dotted(v.slice) == row_p)
-        okn = okn and src_ok
-        if isinstance(v, ast.Subscript):
-            col.fail("C08.R4" if col.prop == "C08" else rule, "Table._get_row_cache#absent-name-with-negative-count", cx.loc(neg[0].id),
-                     "an absent name with a negative count is a miss (None), not a KeyError of the count dictionary", A.src(v))
-    col.add(rule, "Table._get_row_cache#negative-count-from-last", okn, cx.loc(cx.fn),
-            "a negative count is shifted by the number of occurrences of the name (only when negative)", "")
-    rets = [n.ast.value for n in cfg.nodes.values() if n.kind == "stmt" and isinstance(n.ast, ast.Return)]
-    okr = len(rets) == 1 and isinstance(rets[0], ast.IfExp) and A.src(rets[0].body) in (f"idx + {off_p}", f"{off_p} + idx") and A.is_none(rets[0].orelse) \
-        and A.src(rets[0].test) == "idx is not None"
-    col.add(rule, "Table._get_row_cache#offset-added-or-None", okr, cx.loc(cx.fn),
-            "the result is the cached position plus the offset, or None when there is no such occurrence", A.src(rets[0]) if rets else "")
-    look = [c for c in A.calls(cx.fn) if isinstance(c.func, ast.Attribute) and c.func.attr == "get" and c.args and isinstance(c.args[0], ast.Tuple)]
-    okl = len(look) == 1 and [A.dotted(e) for e in look[0].args[0].elts] == [row_p, cnt_p]
-    col.add(rule, "Table._get_row_cache#lookup-(name,count)", okl, cx.loc(cx.fn), "the cache is looked up with (name, count)", "")
-    cx = fnctx(repo, "Table", "_get_row_cache_raise")
-    raises = [n for n in A.walk(cx.fn) if isinstance(n, ast.Raise)]
-    okk = len(raises) == 1 and isinstance(raises[0].exc, ast.Call) and A.call_name(raises[0].exc) == "KeyError"
+    col.add(rule, "Table._split_name_count_offset#separators", roles.get("count") is True and not roles.get("unrecognised"), sx.loc(sx.fn),
+            "count and offset come from splitting once on the table's own three separators (nothing else contributes)", str(roles))
+    # ---- _get_row_cache
+    sx = tctx(repo, "_get_row_cache")
+    row_p, cnt_p, off_p = sx.P(0), sx.P(1), sx.P(2)
+    cache = S.mcall(S.SELF, "_get_cache")
+    rets = sx.of_kind("return")
+    ok_ret, ok_cnt, ok_look, facts = bool(rets), True, True, []
+    shift = S.mcall(("item", cache, 1), "get", row_p, ("const", "0"))
+    seen_some = False
+    for r in rets:
+        for a in S.alts(r.value):
+            if a == ("const", "None"):
+                continue
+            m = S.match(a, ("op", "+", S.V("idx"), off_p))
+            if m is None:
+                ok_ret = False
+                facts.append(f"returns {S.show(a)[:80]}")
+                continue
+            seen_some = True
+            for idx in S.alts(m["idx"]):
+                mm = S.match(idx, S.mcall(("item", cache, 0), "get", ("tuple", (row_p, S.V("cnt")))))
+                if mm is None:
+                    ok_look = False
+                    facts.append(f"looks up {S.show(idx)[:80]}")
+                    continue
+                for cnt in S.instances(mm["cnt"], 64):
+                    if cnt in (cnt_p, ("const", "0")):
+                        continue
+                    if cnt[:1] in (("aug",), ("op",)) and cnt[1] == "+" and cnt[2] in (cnt_p, ("const", "0")) and cnt[3] == shift:
+                        continue
+                    if cnt[:1] in (("aug",), ("op",)) and cnt[1] == "+" and cnt[2] in (cnt_p, ("const", "0")) and \
+                            cnt[3] == ("sub", ("item", cache, 1), row_p):
+                        col.fail("C08.R4" if col.prop == "C08" else rule, "Table._get_row_cache#absent-name-with-negative-count", sx.loc(r),
+                                 "an absent name with a negative count is a miss (None), not a KeyError of the count dictionary", S.show(cnt))
+                        continue
+                    ok_cnt = False
+                    facts.append(f"count becomes {S.show(cnt)[:80]}")
+    col.add(rule, "Table._get_row_cache#offset-added-or-None", ok_ret and seen_some, sx.loc(sx.fn),
+            "the result is the cached position plus the offset, or None when there is no such occurrence", "; ".join(facts[:2]))
+    col.add(rule, "Table._get_row_cache#lookup-(name,count)", ok_look and seen_some, sx.loc(sx.fn), "the cache is looked up with (name, count)", "")
+    # the shift applies exactly to negative counts
+    shifted = [nid for nid in sx.cfg.nodes for d in sx.cx.rd.defs.get(nid, []) if d.name == cnt_p[2] and d.kind in ("aug", "assign")
+               and S.contains(sx.sym.of(d.stmt.value, nid) if hasattr(d.stmt, "value") else ("opaque", ""), lambda t: S.is_call_of(t, meth="get") or t[:1] == ("sub",))]
+    neg_ok = bool(shifted) and all(any(c[:1] == ("cmp",) and c[1] == "<" and c[3] == ("const", "0") for c in sx.conds(n)) for n in shifted)
+    col.add(rule, "Table._get_row_cache#negative-count-from-last", ok_cnt and neg_ok, sx.loc(sx.fn),
+            "a negative count is shifted by the number of occurrences of the name -- by addition, only when negative -- so that an "
+            "out-of-range negative count stays a miss", "; ".join(facts[:2]))
+    sx = tctx(repo, "_get_row_cache_raise")
+    row_p = sx.P(0)
+    idx = ("call", ("attr", S.SELF, "_get_row_cache"), S.V("a"), S.V("k"))
+    raises = sx.of_kind("raise")
+    okk = len(raises) == 1 and S.is_call_of(raises[0].value, ("glob", "KeyError"))
     if okk:
-        nid = cx.cfg.node_of(raises[0])
-        def is_none_t(t):
-            p = A.compare_parts(t)
-            return bool(p and isinstance(p[1], ast.Is) and A.is_none(p[2]))
-        okk = has_guard(cx.cfg, nid, "T", is_none_t)
-    col.add(rule, "Table._get_row_cache_raise#KeyError-when-absent", okk, cx.loc(cx.fn), "no such occurrence raises KeyError", "")
+        cs = sx.conds(raises[0].nid)
+        okk = len(cs) == 1 and S.match(cs[0], ("cmp", "is", idx, ("const", "None"))) is not None
+    rets = sx.of_kind("return")
+    okk = okk and bool(rets) and all(S.match(r.value, idx) is not None for r in rets)
+    col.add(rule, "Table._get_row_cache_raise#KeyError-when-absent", okk, sx.loc(sx.fn),
+            "no such occurrence raises KeyError; otherwise the position found by _get_row_cache is returned", "")
 
 
 def _entry_points(col, rule="C07.R4"):
     repo = col.repo
-    cx = fnctx(repo, "Table", "_get_row_index")
-    ok = not A.has_fragments(cx.fn, ["self._split_name_count_offset({P1})", "self._get_row_cache_raise({L}, {L}, {L})", "self._get_row_cache_raise(*{P1})"])
-    col.add(rule, "Table._get_row_index#resolver", ok, cx.loc(cx.fn),
-            "string rows are parsed and resolved by the raising resolver; tuple rows go to it directly", "")
-    cx = fnctx(repo, "Table", "__floordiv__")
-    rets = [n.value for n in A.walk(cx.fn) if isinstance(n, ast.Return)]
-    col.add(rule, "Table.__floordiv__#resolver", len(rets) == 1 and A.src(rets[0]) == f"self._get_row_index({A.params(cx.fn)[1]})", cx.loc(cx.fn),
+    sx = tctx(repo, "_get_row_index")
+    row = sx.P(0)
+    sp = S.mcall(S.SELF, "_split_name_count_offset", row)
+    want = {
+        "str": S.mcall(S.SELF, "_get_row_cache_raise", ("item", sp, 0), ("item", sp, 1), ("item", sp, 2)),
+        "tuple": ("call", ("attr", S.SELF, "_get_row_cache_raise"), (("uop", "*", row),), ()),
+        "int": row,
+    }
+    got = {}
+    for r in sx.of_kind("return"):
+        for c in sx.conds(r.nid):
+            m = S.match(c, S.fcall("isinstance", row, S.V("t")))
+            if m is not None and m["t"][:1] == ("glob",):
+                got[m["t"][1]] = r.value
+    ok = all(got.get(k) == v for k, v in want.items())
+    col.add(rule, "Table._get_row_index#resolver", ok, sx.loc(sx.fn),
+            "string rows are parsed and resolved by the raising resolver; tuple rows go to it directly; integers are positions",
+            str({k: S.show(v)[:60] for k, v in got.items()}))
+    sx = tctx(repo, "__floordiv__")
+    rets = sx.of_kind("return")
+    col.add(rule, "Table.__floordiv__#resolver", bool(rets) and all(r.value == S.mcall(S.SELF, "_get_row_index", sx.P(0)) for r in rets), sx.loc(sx.fn),
             "`table // row` resolves through _get_row_index", "")
-    cx = fnctx(repo, "_RowView", "get_index")
-    rets = [n.value for n in A.walk(cx.fn) if isinstance(n, ast.Return)]
-    col.add(rule, "_RowView.get_index#resolver", len(rets) == 1 and A.src(rets[0]) == f"self.table._get_row_index({A.params(cx.fn)[1]})", cx.loc(cx.fn),
+    sx = sctx(repo, "_RowView", "get_index")
+    rets = sx.of_kind("return")
+    col.add(rule, "_RowView.get_index#resolver", bool(rets) and all(r.value == S.mcall(S.sattr("table"), "_get_row_index", sx.P(0)) for r in rets), sx.loc(sx.fn),
             "rows.get_index resolves through Table._get_row_index", "")
-    cx = fnctx(repo, "_ColView", "get_index_unique")
-    ok = any(A.src(c) == "self.table._make_cache()" for c in A.calls(cx.fn))
-    col.add(rule, "_ColView.get_index_unique#from-current-column", ok, cx.loc(cx.fn),
+    sx = sctx(repo, "_ColView", "get_index_unique")
+    ok = bool(sx.calls_some(S.mcall(S.sattr("table"), "_make_cache")))
+    col.add(rule, "_ColView.get_index_unique#from-current-column", ok, sx.loc(sx.fn),
             "the unique row labels are computed from the current index column (not from a stored copy)", "")
-    cx = fnctx(repo, "Table", "show")
-    ok = any(A.src(c) == "self._make_cache()" for c in A.calls(cx.fn))
-    col.add(rule, "Table.show#labels-from-current-column", ok, cx.loc(cx.fn), "show() prints labels computed from the current index column", "")
-    cx = fnctx(repo, "Table", "_make_cache")
-    fs = [n for n in A.walk(cx.fn) if isinstance(n, ast.JoinedStr)]
-    ok = any([A.src(p.value) for p in f.values if isinstance(p, ast.FormattedValue)][1:2] == ["self._sep_count"] for f in fs)
-    col.add(rule, "Table._make_cache#labels-use-count-separator", ok, cx.loc(cx.fn),
+    sx = tctx(repo, "show")
+    ok = bool(sx.calls_some(S.mcall(S.SELF, "_make_cache")))
+    col.add(rule, "Table.show#labels-from-current-column", ok, sx.loc(sx.fn), "show() prints labels computed from the current index column", "")
+    sx = tctx(repo, "_make_cache")
+    ok = False
+    for ev in sx.of_kind("store"):
+        tp = S.template(ev.value) if ev.value is not None else None
+        if tp and len(tp[1]) == 3 and tp[0] == "{}{}{}" and tp[1][1][1] == S.sattr("_sep_count"):
+            ok = True
+    col.add(rule, "Table._make_cache#labels-use-count-separator", ok, sx.loc(sx.fn),
             "unique labels are name + the table's count separator + occurrence, the form the parser splits", "")
+    # the cache dictionaries are consumed only by the resolver: any other reader would bypass the count normalisation
+    t = repo.cls("Table")
+    readers = []
+    seen = set()
+    for name, fn in t.methods.items():
+        if id(fn) in seen or name in t.properties:
+            continue
+        seen.add(id(fn))
+        if _private_helper(name):
+            continue
+        sx = tctx(repo, name)
+        for ev in sx.events:
+            tms = [ev.term] if ev.kind == "call" else [x for x in (ev.value, ev.target) if x is not None]
+            for tm in tms:
+                for s_ in S.subterms(tm):
+                    if s_[:1] == ("item",) and S.is_call_of(s_[1], meth="_get_cache") or s_ in (S.sattr("_index_cache"), S.sattr("_count_cache")):
+                        readers.append((name, sx.loc(ev)))
+    allowed = {"_get_cache", "_get_row_cache", "__getitem__", "__setitem__", "_invalidate_cache", "__init__"}
+    foreign = sorted({(n, l) for n, l in readers if n not in allowed})
+    col.add(rule, "Table#cache-read-only-through-resolver", not foreign, foreign[0][1] if foreign else "xdeps/table.py",
+            "the cache dictionaries are read only by _get_row_cache (and the (row, 0) / tuple fast path of the cell accessors): every "
+            "other lookup goes through the resolver, which normalises negative counts and offsets", str(foreign))
 
 
 def _make_cache(col, rule="C07.R5"):
     repo = col.repo
-    cx = fnctx(repo, "Table", "_make_cache")
-    cfg = cx.cfg
-    # the column scanned is the current index column
-    colv = [n for n in A.walk(cx.fn) if isinstance(n, ast.Assign) and A.src(n.value) == "self._data[self._index]"]
-    col.add(rule, "Table._make_cache#scans-current-index-column", len(colv) == 1, cx.loc(cx.fn),
-            "the cache is built from self._data[self._index]", "")
-    cname = A.target_names(colv[0].targets[0])[0] if colv else None
-    rets = [n for n in cfg.nodes.values() if n.kind == "stmt" and isinstance(n.ast, ast.Return)]
+    sx = tctx(repo, "_make_cache")
+    col_t = ("sub", DATA, INDEX)
+    el = ("elem", col_t)
+    rets = sx.of_kind("return")
+    if not rets or any(not (r.value[:1] == ("tuple",) and len(r.value[1]) == 3) for r in rets):
+        raise AnalysisError("Table._make_cache: return is not a 3-tuple (cannot decide)")
+    okd = okc = ok0 = False
+    facts = []
     for r in rets:
-        v = r.ast.value
-        if not (isinstance(v, ast.Tuple) and len(v.elts) == 3):
-            raise AnalysisError("Table._make_cache: return is not a 3-tuple (cannot decide)")
-        cnt = cx.resolve(v.elts[1], r.id)
-        dct = cx.resolve(v.elts[0], r.id)
-        # constant-valued count dictionaries
-        k = None
-        if isinstance(cnt, ast.Call) and A.call_name(cnt) == "dict.fromkeys":
-            k = A.const(cnt.args[1]) if len(cnt.args) == 2 else None
-            col.add(rule, f"Table._make_cache#count-of-present-name>=1", k == 1, cx.loc(r.id),
-                    "every name present in the column is recorded with its number of occurrences (at least 1): negative counts are "
-                    "normalised by adding it", f"count dictionary is {A.src(cnt)}")
-        elif isinstance(cnt, ast.DictComp) and isinstance(cnt.value, ast.Constant):
-            col.add(rule, f"Table._make_cache#count-of-present-name>=1", cnt.value.value == 1, cx.loc(r.id),
-                    "every name present in the column is recorded with its number of occurrences (at least 1)", A.src(cnt))
-    # main construction: occurrence index of a first occurrence is 0, stored count is last index + 1
-    gets = [c for c in A.calls(cx.fn) if isinstance(c.func, ast.Attribute) and c.func.attr == "get" and len(c.args) == 2 and isinstance(c.args[1], (ast.Constant, ast.UnaryOp))]
-    occ = None
-    for n in A.walk(cx.fn):
-        if isinstance(n, ast.Assign) and isinstance(n.value, ast.BinOp) and isinstance(n.value.op, ast.Add) and n.value.left in gets and isinstance(n.value.right, ast.Constant):
-            d = ast.literal_eval(n.value.left.args[1])
-            occ = (A.target_names(n.targets[0])[0], d + n.value.right.value, n)
-    if occ is None:
-        raise AnalysisError("Table._make_cache: occurrence counter `cc = count.get(nn, D) + K` not recognised (cannot decide)")
-    col.add(rule, "Table._make_cache#first-occurrence-is-0", occ[1] == 0, cx.module.loc(occ[2]),
-            "the first occurrence of a name gets occurrence number 0 ('name' == 'name::0')", A.src(occ[2]))
-    ccv = occ[0]
-    # dct[(nn, cc)] = ii inside `for ii, nn in enumerate(col)`
-    okd = False
-    for f in (n for n in A.walk(cx.fn) if isinstance(n, ast.For)):
-        if isinstance(f.iter, ast.Call) and A.call_name(f.iter) == "enumerate" and A.dotted(f.iter.args[0]) == cname:
-            ii, nn = A.target_names(f.target)
-            for n in A.walk(f):
-                if isinstance(n, ast.Assign) and isinstance(n.targets[0], ast.Subscript) and isinstance(n.targets[0].slice, ast.Tuple):
-                    okd = [A.dotted(e) for e in n.targets[0].slice.elts] == [nn, ccv] and A.dotted(n.value) == ii
-            conds = [n for n in A.walk(f) if isinstance(n, (ast.If, ast.Break, ast.Continue))]
-            okd = okd and not conds
-    col.add(rule, "Table._make_cache#(name,occurrence)->position", okd, cx.loc(cx.fn),
-            "for every row, unconditionally, (name, occurrence) maps to the row's position in the column", "")
-    # final counts: count[nn] = cc + 1 over count.items()
-    okc = False
-    for f in (n for n in A.walk(cx.fn) if isinstance(n, ast.For)):
-        if A.src(f.iter).endswith(".items()") and not A.src(f.iter).startswith("self"):
-            tv = A.target_names(f.target)
-            for n in f.body:
-                if isinstance(n, ast.Assign) and isinstance(n.targets[0], ast.Subscript) and A.dotted(n.targets[0].slice) == tv[0] \
-                        and isinstance(n.value, ast.BinOp) and isinstance(n.value.op, ast.Add) and A.dotted(n.value.left) == tv[1] and A.is_const(n.value.right, 1):
+        dct, cnt, names = r.value[1]
+        if dct[:1] == ("acc",) and dct[1] == "dict":
+            for c in dct[2]:
+                if c[0] == "kv" and not c[1] and c[2][:1] == ("tuple",) and len(c[2][1]) == 2 and c[2][1][0] == el and c[3] == ("index", col_t):
+                    okd = True
+                    for cc in S.instances(c[2][1][1], 16):
+                        m = S.match(cc, ("op", "+", ("call", ("attr", S.ANY, "get"), (el, S.V("d")), ()), S.V("k")))
+                        if m is not None and m["d"][:1] == ("const",) and m["k"][:1] == ("const",):
+                            try:
+                                ok0 = int(m["d"][1]) + int(m["k"][1]) == 0
+                            except ValueError:
+                                ok0 = False
+                            facts.append(S.show(cc)[-40:])
+                        elif cc == ("const", "0"):
+                            ok0 = True
+        if cnt[:1] == ("acc",) and cnt[1] == "dict":
+            for c in cnt[2]:
+                if c[0] == "kv" and c[2][:1] == ("key",) and S.match(c[3], ("op", "+", ("val", S.ANY), ("const", "1"))) is not None and not c[1]:
                     okc = True
-    col.add(rule, "Table._make_cache#count=last-occurrence+1", okc, cx.loc(cx.fn),
+            if S.is_call_of(cnt, ("attr", ("glob", "dict"), "fromkeys")):
+                okc = False
+    col.add(rule, "Table._make_cache#scans-current-index-column", okd, sx.loc(sx.fn),
+            "the cache is built from self._data[self._index]: for every row, unconditionally, (name, occurrence) maps to the row's position", "")
+    col.add(rule, "Table._make_cache#first-occurrence-is-0", ok0, sx.loc(sx.fn),
+            "the first occurrence of a name gets occurrence number 0 ('name' == 'name::0')", "; ".join(facts[:2]))
+    col.add(rule, "Table._make_cache#count=last-occurrence+1", okc, sx.loc(sx.fn),
             "the stored count of a name is its last occurrence number + 1", "")
-    col.add(rule, "Table._make_cache#single-result-path", len(rets) == 1, cx.loc(cx.fn),
-            "the cache has one construction path", f"{len(rets)} return statements (alternative paths are checked for constant counts only)", note=len(rets) != 1)
+    col.add(rule, "Table._make_cache#single-result-path", len(rets) == 1, sx.loc(sx.fn), "the cache has one construction path",
+            f"{len(rets)} return statements", note=len(rets) != 1)
 
 
 def check(col: Collector):
